@@ -29,8 +29,19 @@ def run(R):
         for mode in (["small 64", "small 1", "neg 5", "small 32767"] if not quick else [R.rng.choice(["small 64", "small 1", "neg 5", "small 32767"])]):
             ra = "RA 0 %s %s" % (hx(ph), hx(st))
             groups.append(["RASET 0 " + mode, "FAULT 1", ra, "FAULT 1", ra, ra, "RAFREE 0"])
+    # crypt_gensalt_ra: its allocator requests fail in turn as well (a prefix of every method, NULL, an unknown one), then the same call again
+    rb = hx(bytes(range(1, 65)))
+    for pfx in sorted(set(PREFIXES.values())) + [None, b"$zz$"]:
+        ga = "GA %s 0 %s 64" % (hx(pfx), rb)
+        g = [ga]
+        for k in (1, 2, 3): g += ["FAULT %d" % k, ga, ga]
+        groups.append(g)
     ops, il, ml = R.run_pair_sharded(groups, nshards=8, wraps=WRAPS)
     def proj(op, a, b):
+        if op.startswith("GA "):
+            for k in ("ret", "errno", "allocs", "fired", "leak", "dfree"):
+                if a.get(k) != b.get(k): return k + " differs"
+            return None
         if op.startswith("CF "):
             d = CS.proj_crypt("C" + op[2:], a, b)
             if d: return d
@@ -60,6 +71,22 @@ def run(R):
                 bad.append((op + " with the allocation failing", "crypt_ra failed with ENOMEM but changed *size from %d to %s: the pair no longer describes the caller's block"
                             % (cur_size, f0.get("size")), line))
             if f0.get("size", "").lstrip("-").isdigit(): cur_size = int(f0["size"])
+        if op.startswith("GA "):
+            f = fields(line)
+            if f.get("fired") == "1":
+                dist["fault-fired"] = dist.get("fault-fired", 0) + 1; dist["gensalt_ra-fault-fired"] = dist.get("gensalt_ra-fault-fired", 0) + 1
+                why = None
+                if f.get("ret") != "NULL": why = "a setting was returned although request %s failed" % prev_fault
+                elif f.get("errno") not in ("ENOMEM", "EINVAL", "ERANGE"): why = "errno %s is not a documented error code" % f.get("errno")
+                elif f.get("dfree") != "0": why = "double free"
+                elif f.get("leak") != "0": why = "crypt_gensalt_ra returned NULL but a block obtained during the call is still allocated (leaked)"
+                if why: bad.append((op + " with request %s failing" % prev_fault, why, line))
+                base = [l for o, l in zip(ops, il) if o == op and fields(l).get("fired") == "0"]
+                if i + 1 < len(il) and ops[i + 1] == op and base and fields(il[i + 1]).get("ret") != fields(base[0]).get("ret"):
+                    bad.append((op, "the crypt_gensalt_ra call following a failed one does not give the fault-free answer", il[i + 1]))
+            elif f.get("leak") != "0" or f.get("dfree") != "0": bad.append((op, "crypt_gensalt_ra leaks or double-frees", line))
+            prev_fault = None
+            continue
         if not op.startswith(("CF ", "RA ")): continue
         f = fields(line)
         fired = f.get("fired") == "1"
@@ -128,10 +155,10 @@ def run(R):
                     bad.append((op, "the call following a failed mapping request does not give the fault-free answer", nxt))
             pf = None
     R.cov["large_area_ops"] = len(bops)
-    R.cov["evaluations"] = sum(1 for o in ops if o.startswith(("CF ", "RA ")))
+    R.cov["evaluations"] = sum(1 for o in ops if o.startswith(("CF ", "RA ", "GA ")))
     R.cov["distinct_nontrivial"] = dist.get("fault-fired", 0)
     R.cov["exhaustive"] = True
-    R.cov["rule"] = ("for every call of a corpus covering all 16 methods (x entry points rn/r/static, plus crypt_ra): the fault-free run counts the allocator/mapper "
+    R.cov["rule"] = ("for every call of a corpus covering all 16 methods (x entry points rn/r/static, plus crypt_ra, plus crypt_gensalt_ra for every prefix): the fault-free run counts the allocator/mapper "
                      "requests (malloc/realloc/mmap/munmap through -Wl,--wrap), then every single position k = 1..3 fails in turn (positions beyond the request count "
                      "do not fire and are compared as fault-free runs), followed by the same call again; non-trivial = calls in which the injected fault fired")
     idx = [i for i, l in enumerate(il) if " fired=1" in l]
